@@ -18,6 +18,7 @@ META = {
 
 def run(s):
     K.suite_workload(s)
+    K.pair_histories(s, text='hostile')
     q = s.tier == 'quick'
     w = K.kind_weights(1, 1, 1.0, 0.04)
     n = 240 if q else 8000
@@ -25,7 +26,7 @@ def run(s):
         if not s.mine(h):
             continue
         text = 'cr' if h % 6 == 5 else 'hostile'
-        K.fuzz_history(s, h, w, steps=(5, 30), text=text)
+        K.fuzz_history(s, h, w, steps=(5, 30), text=text, direct=0.25)
     s.hist['fuzz_histories_total'] = n
 
 
